@@ -1552,10 +1552,11 @@ void OPNMIDIplay::killOrEvacuate(size_t from_channel,
 
 void OPNMIDIplay::panic()
 {
-    for(uint8_t chan = 0; chan < m_midiChannels.size(); chan++)
+    // A song may open more than 256 MIDI channels (16 per MIDI port it names)
+    for(size_t chan = 0; chan < m_midiChannels.size(); chan++)
     {
         for(uint8_t note = 0; note < 128; note++)
-            realTime_NoteOff(chan, note);
+            noteOff(chan, note);
     }
 }
 
